@@ -66,8 +66,10 @@ func runBatch(j Job) JobResult {
 		if len(r.Violations) > 0 {
 			for k := 0; k < 2; k++ {
 				if !sameProps(r.Violations, RunOnce(sc, nil, false, nil).Violations) {
-					res.EngineErr = "violation did not reproduce for " + sc.Name
-					return res
+					for i := range r.Violations {
+						r.Violations[i].Fresh = true
+					}
+					break
 				}
 			}
 			res.Violations = append(res.Violations, r.Violations...)
@@ -528,8 +530,11 @@ func c14Jobs(tier string) []Job {
 		{"1:N", "2:N 2", "1:A w/d", "2:A w/d", "1:C", "2:R w/d"},
 		// the API of a closed Watcher is used while another one (which got the recycled descriptor number) is live
 		{"1:N", "1:A w/d", "1:C", "2:N", "2:A w/d", "1:R w/d", "1:A w/d", "1:L"},
-		{"1:N", "1:A w/f", "1:A w/d", "1:C", "2:N 8", "2:A w/d", "2:A w/f", "1:R w/f", "1:R w/d", "1:C"}}
-	main := [][]string{{"touch w/d/n", "write w/d/a", "mv w/d/a w/d/c", "rm w/d/n"}, {"write w/f", "chmod w/f", "mv w/f w/g"}, {"touch w/d/n ;; write w/d/a", "rm w/d/b ;; mkdir w/d/m"}}
+		{"1:N", "1:A w/f", "1:A w/d", "1:C", "2:N 8", "2:A w/d", "2:A w/f", "1:R w/f", "1:R w/d", "1:C"},
+		// other Watchers on the same directories under other spellings (anything shared between Watchers shows in the names)
+		{"1:N", "1:A $W/d", "1:A ./w/d2", "2:N 4", "2:A w/ld", "2:A $W/d2"}}
+	main := [][]string{{"touch w/d/n", "write w/d/a", "mv w/d/a w/d/c", "rm w/d/n"}, {"write w/f", "chmod w/f", "mv w/f w/g"}, {"touch w/d/n ;; write w/d/a", "rm w/d/b ;; mkdir w/d/m"},
+		{"A w/d2", "mv w/d/a w/d2/a", "mv w/d2/a w/d/a ;; mv w/d/b w/d/c", "mv w/d/c w/o/c"}}
 	var oh [][]string
 	for _, m := range main {
 		for _, o := range other {
